@@ -121,7 +121,25 @@ def classify_path_operand(P, fn, op, depth=0):
                 return {"other:format-dotdot"}
         return {b + "/+" for b in base}
     out = set()
-    for o in fn.origins_of_operand(op):
+    orgs = fn.origins_of_operand(op)
+    if len(orgs) > 1 and all(o[0][0] == "call" and o[0][3] == "std::fmt::format" and len(o) == 1 for o in orgs):
+        # a path chosen between several format!() results
+        from strings import format_of_call
+        for o in orgs:
+            fm2 = format_of_call(fn, fn.call_at[o[0][2]])
+            if not fm2 or fm2[0][0] != "arg":
+                out.add("other:format")
+                continue
+            base = classify_path_operand(P, fn, fm2[0][1], depth + 1)
+            rest = fm2[1:]
+            if len(rest) == 1 and rest[0][0] == "lit" and b"/" not in rest[0][1] and b".." not in rest[0][1] and rest[0][1]:
+                out |= {b + "~" for b in base}
+            elif rest and rest[0][0] == "lit" and rest[0][1].startswith(b"/"):
+                out |= {b + "/+" for b in base}
+            else:
+                out.add("other:format")
+        return out
+    for o in orgs:
         if o[0][0] == "param" and depth < 10:
             # parameter: classify at each caller with the actual operand (keeps format! visible)
             sites = P.callers.get(fn.id, [])
@@ -976,6 +994,10 @@ def c11_r2(ctx):
             ctx.ok()
         else:
             ctx.viol((e.id, "table-written-early"), "the file-state table is written before every thread was joined", c.where)
+    # ... and on every path: no return after the join loop's exhaustion bypasses the write
+    r = e.reach([jl["none"][1]], avoid_blocks=[c.bb for c in tf])
+    if any(b in r for b in e.return_blocks):
+        ctx.viol((e.id, "table-write-skipped"), "after all threads were joined the build can return without writing the file-state table: what the finished rules observed (and the files they moved into place) is forgotten, so the next build trusts stale (hash, mtime) pairs", tf[0].where)
     # every successful result's blob is put back before that
     ib = e.calls_to("current::CurrentFileStates::<SystemType>::insert_blob")
     if not ib:
@@ -994,10 +1016,11 @@ def c11_r4(ctx):
             continue
         f = c.fn
         cls = classify_path_operand(ctx.P, f, c.args[1])
-        if not cls or not all(x.startswith("rulerdir:history") or x.startswith("rulerdir:current") for x in cls):
+        in_state_module = f.id.startswith(("history::History", "current::"))
+        if not in_state_module and (not cls or not all(x.startswith("rulerdir:history") or x.startswith("rulerdir:current") for x in cls)):
             continue
         ctx.inst("state file written in %s" % f.id, c.where)
-        temp = all(x.endswith("~") for x in cls)
+        temp = bool(cls) and all(x.endswith("~") for x in cls)
         # is there a rename in f (or its callers, for helper functions) from this path onto another, after the write?
         ok = False
         rn = sys_calls(f, "rename")
